@@ -93,6 +93,9 @@ pub enum EnumRound {
     /// the format refused to write this shape under this tagging (serde cannot put a tag into a sequence or number)
     NotExpressible(String),
     Back { text: String, outcome: Outcome },
+    /// (style 3 only) the document was taken by one of the other color types of the enum: which one, and that
+    /// value written out again
+    OtherVariant { text: String, which: &'static str, back_text: String },
 }
 
 pub struct OptOps {
@@ -208,7 +211,62 @@ enum EnumAdjacent<X> {
     Color(X),
 }
 
+/// An untagged enum in which the color stands among other palette colors ("a palette file with colors of several
+/// kinds"): serde tries the variants in order, and the first type that accepts the document wins. A type accepts a
+/// document of another type only if it finds all of its own fields in it.
+#[derive(Serialize, Deserialize, Debug)]
+#[serde(untagged)]
+enum EnumAmong<X> {
+    Rgb(palette::Srgba),
+    Hsl(palette::Hsla),
+    Hsv(palette::Hsva),
+    Hwb(palette::Hwba),
+    Hsluv(palette::Hsluva),
+    Lab(palette::Laba),
+    Lch(palette::Lcha),
+    Luv(palette::Luva),
+    Xyz(palette::Xyza),
+    Yxy(palette::Yxya),
+    Lms(Alpha<LmsC<f32>, f32>),
+    Jmh(Alpha<Cam16UcsJmhC<f32>, f32>),
+    Jab(Alpha<Cam16UcsJabC<f32>, f32>),
+    Luma(palette::SrgbLumaa),
+    Color(X),
+}
+
+fn enum_among<X: Case>(vals: &[f64], via: u8) -> IoResult<EnumRound> {
+    let doc = EnumAmong::Color(X::build(vals));
+    let (text, back) = if via == 1 {
+        let v = match serde_json::to_value(&doc) {
+            Ok(t) => t,
+            Err(e) => return Ok(EnumRound::NotExpressible(e.to_string())),
+        };
+        let text = v.to_string();
+        let b = serde_json::from_value::<EnumAmong<X>>(v).map_err(|e| format!("{text} -> {e}"))?;
+        (text, b)
+    } else {
+        let text = match serde_json::to_string(&doc) {
+            Ok(t) => t,
+            Err(e) => return Ok(EnumRound::NotExpressible(e.to_string())),
+        };
+        let b = serde_json::from_str::<EnumAmong<X>>(&text).map_err(|e| format!("{text} -> {e}"))?;
+        (text, b)
+    };
+    macro_rules! other {
+        ($($v:ident),+) => {
+            match back {
+                EnumAmong::Color(x) => Ok(EnumRound::Back { text, outcome: outcome(x, vals) }),
+                $(EnumAmong::$v(c) => Ok(EnumRound::OtherVariant { text, which: stringify!($v), back_text: serde_json::to_string(&c).map_err(|e| e.to_string())? }),)+
+            }
+        };
+    }
+    other!(Rgb, Hsl, Hsv, Hwb, Hsluv, Lab, Lch, Luv, Xyz, Yxy, Lms, Jmh, Jab, Luma)
+}
+
 fn enum_round<X: Case>(vals: &[f64], style: u8, via: u8) -> IoResult<EnumRound> {
+    if style == 3 {
+        return enum_among::<X>(vals, via);
+    }
     macro_rules! go {
         ($E:ident) => {{
             let doc = $E::Color(X::build(vals));
